@@ -37,7 +37,7 @@ def main():
     rc, o = sh('git -C %s worktree add -q %s HEAD' % (REPO, wt))
     try:
         shutil.copytree(d, os.path.join(wt, '_seed', sid))
-        rc, o = sh('git apply _seed/%s/patch.diff' % sid + '', cwd=wt)
+        rc, o = sh('git apply _seed/%s/patch.diff' % sid + ' || git apply -3 _seed/%s/patch.diff' % sid, cwd=wt)
         out['patch_applies'] = rc == 0
         rc, o = sh('/venv/bin/python -m pytest -q -p no:cacheprovider 2>&1 | tail -1', cwd=wt)
         out['tests_with_change'] = o.strip()
